@@ -285,6 +285,14 @@ def _iters():
                      cost=n * n * 10)
 
 
+    # the first two / three steps of a sorted consumption, symbolic ends, identity tables
+    for kind, specs in (("dq", ((4, 2, QUICK), (6, 2, QUICK), (7, 2, QUICK), (7, 3, THOROUGH), (8, 2, THOROUGH), (9, 2, THOROUGH))),
+                        ("pq", ((5, 2, QUICK), (8, 2, QUICK), (9, 3, THOROUGH)))):
+        ty = KINDS[kind]["ty"]
+        for n, k, t in specs:
+            inst(f"sorted_{kind}_steps_n{n}_k{k}_id", f"iters::sorted_steps::<{ty}, {n}, {k}>(Tables::Identity)",
+                 kind, n, {"C06": t}, "ITER", meta=dict(iter="into_sorted_iter", steps=k, kind=kind, n=n, tables="identity"),
+                 cost=n * k * (30 if kind == "dq" else 5), mem=6)
     # sorted consumption from identity tables at the sizes where the trickle-down reaches the
     # grandchildren of both children of the root
     for kind, sizes in (("dq", ((6, THOROUGH), (7, THOROUGH))), ("pq", ((7, THOROUGH), (8, THOROUGH)))):
